@@ -64,6 +64,8 @@ class _Rig:
         self.seen = None             # first observed outcome of the connector future
         self.violations = []
         self.sync_fails = 0
+        self.sync_oks = 0
+        self.timers_after_sync_ok = 0
         self.addrinfo = [((socket.AF_INET if f else socket.AF_INET6), ("h", i))
                          for i, (f, s) in enumerate(addrs)]
         self.conn = _Connector(self.addrinfo, self.connect)
@@ -85,7 +87,8 @@ class _Rig:
         st.fut = f
         a = _Att(i, af, addr, st, f)
         self.atts.append(a)
-        if self.addrs[i][1]:
+        imm = self.addrs[i][1]       # 0 pending | 1 already failed | 2 already succeeded when connect() returns
+        if imm == 1:
             # synchronous failure: the future is already failed when connect() returns and the
             # failed connect has closed its own stream
             self.sync_fails += 1
@@ -93,6 +96,13 @@ class _Rig:
             a.err = ConnectionRefusedError("sync %d" % i)
             st._closed = True
             f.set_exception(a.err)
+        elif imm == 2:
+            # synchronous success (loopback / in-memory transport): the future already holds the stream
+            self.sync_oks += 1
+            a.state = "ok"
+            if self.first_success is None and not self.fut.done():
+                self.first_success = a
+            f.set_result(st)
         return st, f
 
     def inflight(self):
@@ -117,6 +127,12 @@ class _Rig:
         assert not self.violations, self.violations[0]
         if self.sync_fails:
             reached("sync_fail")
+        if self.sync_oks and self.first_success is not None and self.first_success.fut is self.atts[0].fut \
+                and self.timers_after_sync_ok:
+            reached("sync_ok_first_then_timer")
+        if self.sync_oks and len(self.atts) > 1 and self.first_success is self.atts[-1] \
+                and self.timers_after_sync_ok:
+            reached("sync_ok_later_then_timer")
         now = env.v.now
         n = len(self.addrs)
         failed = [a for a in self.atts if a.state == "failed"]
@@ -182,7 +198,7 @@ class _Rig:
                 assert a is b or a.af != b.af, "two attempts of one family in flight"
 
 
-def pre_conn(addrs: List[Tuple[bool, bool]], ct: int, steps: List[Tuple[int, int]]) -> bool:
+def pre_conn(addrs: List[Tuple[bool, int]], ct: int, steps: List[Tuple[int, int]]) -> bool:
     if not (1 <= len(addrs) <= P.N and len(steps) <= P.S):
         return False
     if not (0 <= ct <= 3):
@@ -193,17 +209,20 @@ def pre_conn(addrs: List[Tuple[bool, bool]], ct: int, steps: List[Tuple[int, int
     for k, a in steps:
         if not (0 <= k <= 3 and 0 <= a <= 1):
             return False
-    f0 = 1 if addrs[0][1] else 0
+    for fam, imm in addrs:
+        if not 0 <= imm <= 2:
+            return False
+    f0 = addrs[0][1]
     k0 = steps[0][0] if len(steps) > 0 else 0
-    return in_shard((len(addrs) - 1) + P.N * (f0 + 2 * k0))
+    return in_shard((len(addrs) - 1) + P.N * (f0 + 3 * k0))
 
 
 @harness(
     pre=pre_conn,
     quick=dict(N=3, S=3, SYM=1, timeout=300, reach_timeout=60),
     thorough=dict(N=4, S=4, SYM=0, timeout=1500, reach_timeout=120),
-    nshards=dict(quick=24, thorough=32),
-    reach=["sync_fail", "timeout_error", "all_failed_error", "late_success_closed", "secondary_started"],
+    nshards=dict(quick=36, thorough=48),
+    reach=["sync_fail", "sync_ok_first_then_timer", "sync_ok_later_then_timer", "timeout_error", "all_failed_error", "late_success_closed", "secondary_started"],
     units=["tcpclient._Connector.__init__", "tcpclient._Connector.split", "tcpclient._Connector.start",
            "tcpclient._Connector.try_connect", "tcpclient._Connector.on_connect_done",
            "tcpclient._Connector.set_timeout", "tcpclient._Connector.on_timeout",
@@ -229,7 +248,7 @@ def pre_conn(addrs: List[Tuple[bool, bool]], ct: int, steps: List[Tuple[int, int
              "more than N addresses / S schedule steps", "more than two address families",
              "attempts that never finish AND no connect_timeout (then nothing completes by design)"],
 )
-def h_connector(addrs: List[Tuple[bool, bool]], ct: int, steps: List[Tuple[int, int]]):
+def h_connector(addrs: List[Tuple[bool, int]], ct: int, steps: List[Tuple[int, int]]):
     with install() as env:
         he = HE
         rig = _Rig(env, addrs, he, ct)
